@@ -290,7 +290,20 @@ func runC02(c *Ctx) {
 			var bad string
 			for _, g := range Guards(ci) {
 				b, ok := g.Cond.(*ssa.BinOp)
-				if !ok || isNilConst(b.Y) || isNilConst(b.X) {
+				if !ok {
+					continue
+				}
+				if isNilConst(b.Y) || isNilConst(b.X) {
+					// a nil test may only guard fields *behind* the tested pointer (Since.Offset under
+					// Since != nil); a field of another branch written only when that pointer is set
+					// (Reverse under Since != nil) is dropped from the key for all calls without it
+					tested := D(b.X)
+					if isNilConst(b.X) {
+						tested = D(b.Y)
+					}
+					if strings.Contains(tested, ".") && !strings.Contains(D(arg), tested) && !types.Identical(b.X.Type(), types.Universe.Lookup("error").Type()) {
+						bad = g.String() + " (a nil test of a different field)"
+					}
 					continue
 				}
 				if _, isStrLit := constStrOf(b.Y); isStrLit && b.Op == token.NEQ {
